@@ -66,8 +66,13 @@ def Rl(*alts, memo=False):
 # ---------------------------------------------------------------------------------------------
 # analyses
 # ---------------------------------------------------------------------------------------------
+FORCED_MAY_BE_EMPTY = [False]   # the generator's left-recursion analysis treats a forced item as possibly empty
+
+
 def nullable_item(g, it, seen=()):
     k = it["k"]
+    if k == "forced" and FORCED_MAY_BE_EMPTY[0]:
+        return True
     if k in ("opt", "star", "and", "not", "cut"):
         return True
     if k == "tok":
@@ -90,7 +95,8 @@ def nullable_alt(g, alt, seen=()):
 
 
 def first_rules(g, items):
-    """rules that can be called at the start position of this item sequence"""
+    """rules that can be called at the start position of this item sequence.  Like the generator's own analysis this is
+    conservative about forced items (treated as possibly empty), so that the two agree on which grammars have a leader."""
     out = set()
     for it in items:
         k = it["k"]
@@ -103,7 +109,12 @@ def first_rules(g, items):
         elif k == "group":
             for a in it["alts"]:
                 out |= first_rules(g, a["items"])
-        if not nullable_item(g, it):
+        FORCED_MAY_BE_EMPTY[0] = True
+        try:
+            stop = not nullable_item(g, it)
+        finally:
+            FORCED_MAY_BE_EMPTY[0] = False
+        if stop:
             break
     return out
 
